@@ -49,18 +49,8 @@ pub fn check_bytes(input: &[u8], out: &mut Outcome) {
         let tt = match tok.next() {
             Ok(t) => t,
             Err(e) => {
-                if valid_utf8 {
-                    out.fail(format!("next() returned an error on valid UTF-8 input: {e}"));
-                    return;
-                }
-                // invalid UTF-8: an error is a clean rejection; what was read so far must still add up
-                let mut all = acc.clone();
-                all.extend(tok.raw());
-                all.extend(tok.buffered());
-                if all != input {
-                    out.fail("after Err from next(): tokens + raw + buffered != input".to_string());
-                }
-                out.class("next-err-invalid-utf8");
+                // total on every byte sequence: the tokenizer works on bytes, an error instead of a token is not an answer
+                out.fail(format!("next() returned an error instead of a token ({} input): {e}", if valid_utf8 { "valid UTF-8" } else { "not valid UTF-8" }));
                 return;
             }
         };
@@ -239,7 +229,7 @@ pub fn run(ctx: &Ctx) -> Report {
          no panic/overflow (overflow checks on), accessors Ok on valid UTF-8; exhaustive over the 16-symbol markup alphabet and over a 25-fragment alphabet, random fragment soups and byte strings beyond; \
          non-trivial = >=3 tokens of >=2 kinds, or a raw-text element (script/style/title/textarea/...) was entered; enumerated strings are distinct by construction, random ones by hash",
     );
-    rep.assume("an Err from Tokenizer::next() is accepted only when the input is not valid UTF-8 (clean rejection)");
+    rep.assume("Tokenizer::next() never answers with Err, whatever the bytes (the accessors may, on bytes that are not UTF-8)");
     let l1 = ctx.tier.pick(6, 7) as u32;
     let n1 = count_upto(16, l1);
     rep.add(run_enum(
